@@ -3,8 +3,11 @@
 Monitors: post-conditions on every call of eqsig.im.calc_arias_intensity / calc_cav / calc_cav_dp / calc_isv /
 calc_integral_of_abs_velocity / calc_cumulative_abs_displacement / calc_integral_of_abs_acceleration /
 calc_unit_kinetic_energy (length, monotone, final value against the scalar quadrature of vf/oracles/quadrature.py;
-for CAVdp the window/gate oracle with the one-panel-per-window slack of the statement and the knife-edge rule).
-Trace relations (sign reversal, alpha scaling, zero padding) are evaluated by the driver over the monitored calls.
+for CAVdp the window/gate oracle with the one-panel-per-window slack of the statement and the knife-edge rule; the
+signal object bit-for-bit unchanged by the call). Everything expected is derived from a snapshot of (values, dt)
+taken at call entry - never from the object's derived caches.
+Trace relations (sign reversal, alpha scaling, zero padding), twin-object / caller-array purity and "first result
+intact after a second call" are evaluated by the driver over the monitored calls.
 """
 import warnings
 
@@ -15,22 +18,38 @@ from vf.oracles import quadrature as Q
 
 PROP_ID = 'C09'
 TECHNIQUE = ('runtime post-condition monitors on the eight eqsig.im cumulative-measure functions with scalar quadrature '
-             'oracles (two-sided knife-edge oracle for the CAVdp gate); sign/scale/zero-padding trace relations over '
-             'the recorded executions')
-RULE = ('cases = (record, dt) pairs driven through the public eqsig.im functions on eqsig.AccSignal objects. '
+             'oracles fed from a call-entry snapshot (two-sided knife-edge oracle for the CAVdp gate, bit-for-bit purity of '
+             'the signal object); sign/scale/zero-padding trace relations, same-object histories, twin objects and '
+             'back-to-back calls over the recorded executions')
+RULE = ('cases = (record, dt) pairs driven through the public eqsig.im functions on eqsig.AccSignal (for the '
+        'acceleration-based measures also eqsig.Signal) objects, positionally and by keyword. '
         'Quadrature part: record classes of vf/gen.py (noise, walk, sine, chirp, beat, impulse, hat, step, quake, alt, '
-        'plateau, const, zeropad, intnoise), n in [2, 5000], dt nice/reciprocal/log-uniform, containers float64 / '
-        'int64 / list; every case is also run as -x, 2^k*x, alpha*x and (when it ends in 0) zero-padded. CAVdp part: '
-        'durations 2..12 s plus 0..pps-1 extra samples, dt in {0.1,0.05,0.04,0.025,0.02,0.01,0.005,0.0025,0.002} and '
+        'plateau, const, zeropad, intnoise) with modifiers (plateau at start/end, extreme at first/last sample, end right '
+        'after a sign change, end at 0, large offset on a small signal), n in {1,2,3,..} around every power of two up to '
+        '4097, 5000 and a few records past 2**16, amplitudes 1e-12..1e12, dt nice/reciprocal/log-uniform 1e-9..1e3 as '
+        'float / np.float64 / np.float32 / int, containers float64 / float32 / int64 / int32 / int16 / int8 / uint8 / '
+        'uint16 (narrow types filled to ~95% of their range) / list / tuple / int list / mixed list / strided and '
+        'reversed views / read-only arrays; every case is also run as -x, 2^k*x, alpha*x and (when it ends in 0) '
+        'zero-padded. CAVdp part: durations 2..12 s (some up to 40 s, one long record per shard) plus 0..pps-1 extra '
+        'samples, dt in {0.1,0.05,0.04,0.025,0.02,0.01,0.005,0.0025,0.002}, {1,0.5,0.25,0.2,0.125,0.001,0.0005} and '
         'reciprocals 1/k (k=49,93,98,99,...), classes envelope-noise / all-below / quake / exact-gate (built in g '
         'units on exactly representable levels incl. 0.025 and its two neighbours) / boundary-spike (a spike just '
-        'before a window boundary over distinct per-window background levels) / generic / near-gate-inexact (window '
-        'maxima within 4 ulp of 0.025*9.81 in m/s2: knife-edge rule). Same-object histories: one AccSignal, 3..8 '
+        'before a window boundary over distinct per-window background levels) / generic (amplitudes 1e-12..1e12 g) / '
+        'near-gate-inexact (window maxima within 4 ulp of 0.025*9.81 in m/s2: knife-edge rule), gate-crossing spikes at '
+        'the first sample, the last sample, the end of the last window and on shared window boundaries, containers '
+        'float64 / float32 / int16 / list / view / read-only. Same-object histories: one object, 3..8 '
         'monitored calls drawn with repeats from all eight measures (CAVdp when in its quantifier), interleaved with '
-        'reads of velocity/displacement/pgv/pgd/pga and the mutators add_constant / reset_values / butter_pass; '
-        'non-trivial = the velocity changes sign at least 3 times. distinct = digest(values, dt, part); '
-        'non-trivial = record with a non-zero sample.')
-ASSUMPTIONS = ['NaN-free real records, n >= 2, dt > 0; float64 arithmetic (float32 containers are not driven)',
+        'reads of velocity/displacement/pgv/pgd/pga, the mutators add_constant / reset_values (same, shorter, longer) '
+        '/ butter_pass / remove_average / remove_poly / rebase_displacement / set_zero_residual_velocity / '
+        'set_zero_residual_displacement and an explicit regeneration of the velocity (trap=True); non-trivial = the '
+        'velocity changes sign at least 3 times. Twin objects: A, B built from one caller array and C from A.values; A is '
+        'mutated and measured, then the caller array, B and C and their measures must be bit-for-bit what they were. '
+        'Back to back: each measure on two different records of one shape, first result compared after the second '
+        'call. distinct = digest(values, dt, part); non-trivial = record with a non-zero sample.')
+ASSUMPTIONS = ['NaN-free real records, n >= 1, dt > 0',
+               'a record is the sequence of real numbers its container holds: integer containers of any width are '
+               'judged against the float64 quadrature of their values; float32 records are judged with the unit '
+               'round-off of float32 (rtol (n+10)*2^-23), everything else with rtol 1e-10',
                'velocity is, by definition (C08), the cumulative trapezoid of the record with v[0]=0; the oracle '
                'computes it from (values, dt) at call entry and never reads the object\'s cached series; '
                'generate_displacement_and_velocity_series(trap=False) is not driven',
@@ -39,11 +58,16 @@ ASSUMPTIONS = ['NaN-free real records, n >= 2, dt > 0; float64 arithmetic (float
                'CAVdp is judged only when 1/dt is an integer up to rounding and the record spans >= 2 s; '
                'the gate is decided strictly only for records built in g units whose a/9.81 reproduces them exactly, '
                'otherwise a window maximum within 4 ulp of 0.025 may fall on either side',
+               'mutators and reads inside histories are not judged here (an exception in one is an observation); '
+               'velocity-based measures are not driven on eqsig.Signal (it has no velocity)',
                'oracle vf/oracles/quadrature.py is correct (scalar trapezoid / rectangle sums, fsum)']
 RTOL = 1e-10
+EPS32 = float(np.finfo(np.float32).eps)
+TINY32 = float(np.finfo(np.float32).tiny)
 G = Q.G
 CTX = None
 HINT = {'exact_g': False}
+
 
 def n_shards(tier):
     return 16
@@ -56,9 +80,14 @@ FINAL_CLAUSE = {'arias': 'arias.final==pi/2g*trapz(a^2)', 'cav': 'cav.final==tra
 FN = {'arias': 'calc_arias_intensity', 'cav': 'calc_cav', 'isv': 'calc_isv', 'abs_acc': 'calc_integral_of_abs_acceleration',
       'abs_vel': 'calc_integral_of_abs_velocity', 'cad': 'calc_cumulative_abs_displacement',
       'uke': 'calc_unit_kinetic_energy', 'cavdp': 'calc_cav_dp'}
+PARAM = {'arias': 'acc_sig', 'cav': 'acc_sig', 'isv': 'acc_sig', 'abs_acc': 'asig', 'abs_vel': 'asig', 'cad': 'asig',
+         'uke': 'acc_signal', 'cavdp': 'asig'}
+PURITY = 'purity.signal-unchanged-by-call'
+TWIN = 'purity.twin-objects+caller-array'
+STATE = 'state.first-result-intact'
 
 
-def _mins(f, cd, rel, pad):
+def _mins(f, cd, rel, pad, pur, twin, state):
     m = {}
     for k in ('arias', 'cav', 'isv', 'abs_acc', 'abs_vel', 'cad', 'uke'):
         m[FINAL_CLAUSE[k]] = f
@@ -67,39 +96,67 @@ def _mins(f, cd, rel, pad):
     m.update({'cavdp.final==windows+-panel': int(cd * 0.4), 'cavdp.zero-when-no-window-qualifies': int(cd * 0.09),
               'cavdp.in[0,CAV/g]': int(cd * 0.5), 'cavdp.monotone': int(cd * 0.5), 'cavdp.length': int(cd * 0.5),
               'cavdp.gate-decided-exactly': int(cd * 0.09),
-              'relation.sign': rel, 'relation.scale.pow2': rel, 'relation.scale.random': rel, 'relation.zero-pad': pad})
+              'relation.sign': rel, 'relation.scale.pow2': rel, 'relation.scale.random': rel, 'relation.zero-pad': pad,
+              PURITY: pur, TWIN: twin, STATE: state})
     return m
 
 
 # about 50% of what a normal run reaches
-MIN_EVALS = {'quick': _mins(4800, 960, 8000, 1500), 'thorough': _mins(96000, 16000, 160000, 30000)}
+MIN_EVALS = {'quick': _mins(4800, 960, 8000, 1500, 40000, 100, 800),
+             'thorough': _mins(96000, 16000, 160000, 30000, 800000, 2000, 16000)}
 
 
 def _sig(args, kwargs):
     return args[0] if args else next(iter(kwargs.values()))
 
 
-# same-object history being driven (so that a witness taken inside it can be replayed from the fresh object)
-HIST = {'on': False, 'acc0': None, 'dt': None, 'ops': []}
+# scenario being driven (so that a witness taken inside it can be replayed from fresh objects)
+SCEN = {'cur': None}
+
+
+def _scen():
+    s = SCEN['cur']
+    if s is None:
+        return None
+    d = dict(s)
+    if 'ops' in d:
+        d['ops'] = list(d['ops'])
+    return d
 
 
 def _wit(key, acc, dt, **kw):
     d = {'fn': FN[key], 'acc': np.asarray(acc), 'dt': float(dt)}
-    if HIST['on']:
-        d['history'] = {'acc0': HIST['acc0'], 'dt': HIST['dt'], 'ops': list(HIST['ops'])}
+    sc = _scen()
+    if sc is not None:
+        d['scenario'] = sc
     d.update(kw)
     return d
+
+
+def _prec(acc_in, n):
+    """(rtol, unit round-off) the record's dtype allows."""
+    if np.asarray(acc_in).dtype == np.float32:
+        return (n + 10) * EPS32, EPS32
+    return RTOL, Q.EPS
+
+
+def _underflow(acc_in, n, dt):
+    """Absolute floor for float32 records: squares and products below the smallest normal float32 lose up to that
+    much each (micro-amplitude records with tiny dt)."""
+    if np.asarray(acc_in).dtype == np.float32:
+        return 4 * (n + 1) * TINY32 * max(1.0, dt)
+    return 0.0
 
 
 _VEL = {'key': None, 'val': None}
 
 
-def _velocity(acc, dt):
+def _velocity(acc, dt, eps):
     """Oracle velocity of the record, computed from (values, dt) only - never from the object's cached series, which
     an earlier call on the same object may have altered. Returns (v list, rounding bound, sum |v|)."""
-    key = (acc.tobytes(), dt)
+    key = (acc.tobytes(), dt, eps)
     if _VEL['key'] != key:
-        v, err = Q.velocity(acc.tolist(), dt)
+        v, err = Q.velocity(acc.tolist(), dt, eps)
         _VEL['key'], _VEL['val'] = key, (v, err, sum(abs(x) for x in v))
     return _VEL['val']
 
@@ -120,7 +177,8 @@ def _shape_clauses(ctx, key, acc, dt, result, n):
     else:
         step = float(np.min(np.diff(r))) if r.shape[0] > 1 else None
         ctx.violation(key + '.monotone', _wit(key, acc, dt, min_step=step),
-                      '%s series is not finite and non-decreasing (min step %r)' % (FN[key], step))
+                      '%s series is not finite and non-decreasing (min step %r) for a %s record of %d samples'
+                      % (FN[key], step, np.asarray(acc).dtype, n))
     return r    # the final value of a wrong-length (non-empty) series is still judged
 
 
@@ -135,8 +193,10 @@ def check_quadrature(ctx, key, acc_in, dt, result):
     r = _shape_clauses(ctx, key, acc_in, dt, result, n)
     if r is None:
         return
+    rtol, eps = _prec(acc_in, n)
     got = float(r[-1])
     atol = 0.0
+    floor32 = _underflow(acc_in, n, dt)
     if key == 'arias':
         refs = [Q.arias_final(acc.tolist(), dt)]
     elif key == 'cav':
@@ -144,7 +204,7 @@ def check_quadrature(ctx, key, acc_in, dt, result):
     elif key == 'abs_acc':
         refs = sorted(set(Q.rectangle_finals(acc.tolist(), dt).values()))
     else:
-        v, verr, sumabs_v = _velocity(acc, dt)
+        v, verr, sumabs_v = _velocity(acc, dt, eps)
         if key == 'isv':
             refs = [Q.isv_final(v, dt)]
             atol = 2 * verr * sumabs_v * dt
@@ -154,31 +214,41 @@ def check_quadrature(ctx, key, acc_in, dt, result):
         else:
             ref, sumabs_k = Q.unit_kinetic_energy_final(v)
             refs = [ref]
-            atol = 8 * Q.EPS * sumabs_k + 2 * verr * sumabs_v
-    okk = np.isfinite(got) and any(abs(got - ref) <= atol + RTOL * abs(ref) for ref in refs)
-    ctx.check(okk, FINAL_CLAUSE[key], lambda: _wit(key, acc_in, dt, got_final=got, expected=refs, atol=atol),
-              '%s final value %r, defining quadrature of the record gives %r (n=%d dt=%r%s)'
-              % (FN[key], got, refs, n, dt, ', call %d of a same-object history' % len(HIST['ops']) if HIST['on'] else ''))
+            atol = 8 * eps * sumabs_k + 2 * verr * sumabs_v
+    atol += floor32
+    okk = np.isfinite(got) and any(abs(got - ref) <= atol + rtol * abs(ref) for ref in refs)
+    ctx.check(okk, FINAL_CLAUSE[key], lambda: _wit(key, acc_in, dt, got_final=got, expected=refs, atol=atol, rtol=rtol),
+              '%s final value %r, defining quadrature of the record gives %r (n=%d dt=%r dtype=%s%s)'
+              % (FN[key], got, refs, n, dt, np.asarray(acc_in).dtype,
+                 ', step %d of a %s scenario' % (len(SCEN['cur'].get('ops', [])), SCEN['cur']['kind']) if SCEN['cur'] else ''))
+
+
+def cavdp_in_quantifier(acc, dt):
+    """(inside, pps): 1/dt an integer up to rounding, finite record spanning at least two seconds."""
+    n = acc.shape[0] if acc.ndim == 1 else 0
+    in_dom, pps = Q.samples_per_second(dt) if dt > 0 else (False, 0)
+    return bool(n >= 1 and np.all(np.isfinite(acc)) and in_dom and (n - 1) >= 2 * pps), pps
 
 
 def check_cav_dp(ctx, acc_in, dt, result):
     acc = np.asarray(acc_in, dtype=float)
     n = acc.shape[0] if acc.ndim == 1 else 0
-    in_dom, pps = Q.samples_per_second(dt) if dt > 0 else (False, 0)
-    if n < 1 or not np.all(np.isfinite(acc)) or not in_dom or (n - 1) < 2 * pps:
+    inside, pps = cavdp_in_quantifier(acc, dt)
+    if not inside:
         ctx.observe('cavdp.out-of-quantifier-call')
         return
     exact = bool(HINT['exact_g']) and bool(np.all((acc / G) * G == acc))
     r = _shape_clauses(ctx, 'cavdp', acc_in, dt, result, n)
     if r is None:
         return
+    rtol, eps = _prec(acc_in, n)
     got = float(r[-1])
     a = acc.tolist()
-    wins = Q.cav_dp_windows(a, dt, pps, exact_g=exact)
+    wins = Q.cav_dp_windows(a, dt, pps, exact_g=exact, eps=eps)
     cav_g = Q.cav_final(a, dt) / G
     wit = lambda: _wit('cavdp', acc_in, dt, exact_g=exact, got_final=got, cav_over_g=cav_g, pps=pps,
-                       windows=[(w['w'], w['status'], w['max_g'], w['integral'], w['panel']) for w in wins])
-    ctx.check(np.isfinite(got) and 0.0 <= got <= cav_g * (1 + RTOL), 'cavdp.in[0,CAV/g]', wit,
+                       windows=[(w['w'], w['status'], w['max_g'], w['integral'], w['panel']) for w in wins][:64])
+    ctx.check(np.isfinite(got) and 0.0 <= got <= cav_g * (1 + rtol), 'cavdp.in[0,CAV/g]', wit,
               'CAVdp final %r outside [0, CAV/9.81 = %r]' % (got, cav_g))
     live = [w for w in wins if w['status'] != 'out']
     if any(w['status'] == 'ambiguous' for w in wins):
@@ -191,28 +261,56 @@ def check_cav_dp(ctx, acc_in, dt, result):
                   % (got, max(w['max_g'] for w in wins)))
         return
     adm = Q.cav_dp_admissible(wins)
-    okk = np.isfinite(got) and any(abs(got - e) <= al + RTOL * e for e, al in adm)
+    okk = np.isfinite(got) and any(abs(got - e) <= al + rtol * e for e, al in adm)
     e0, a0 = adm[-1]
     ctx.check(okk, 'cavdp.final==windows+-panel', wit,
               'CAVdp final %r, sum over qualifying windows %r +- %r (one panel per window), %d windows (%d in, %d ambiguous), '
-              'dt=%r n=%d' % (got, e0, a0, len(wins), sum(w['status'] == 'in' for w in wins),
-                              sum(w['status'] == 'ambiguous' for w in wins), dt, n))
+              'dt=%r n=%d dtype=%s' % (got, e0, a0, len(wins), sum(w['status'] == 'in' for w in wins),
+                                       sum(w['status'] == 'ambiguous' for w in wins), dt, n, np.asarray(acc_in).dtype))
+
+
+def _bytes_equal(a, b):
+    a, b = np.asarray(a), np.asarray(b)
+    return a.dtype == b.dtype and a.shape == b.shape and a.tobytes() == b.tobytes()
 
 
 def _pre(args, kwargs):
-    """Snapshot of the object's record at call entry: the post-condition is judged against what the function was
-    given, whatever the call (or an earlier one) did to the object."""
+    """Snapshot of the object at call entry: the post-condition is judged against what the function was given,
+    whatever the call (or an earlier one) did to the object; the purity clause compares the object with it."""
     asig = _sig(args, kwargs)
-    return np.array(asig.values, copy=True), float(asig.dt)
+    snap = {'obj': asig, 'acc': np.array(asig.values, copy=True), 'dt': float(asig.dt), 'dt_raw': asig.dt}
+    if getattr(asig, '_cached_disp_and_velo', False):
+        snap['vel'] = np.array(asig._velocity, copy=True)
+        snap['disp'] = np.array(asig._displacement, copy=True)
+    return snap
+
+
+def check_purity(ctx, key, snap):
+    asig = snap['obj']
+    what = None
+    if not _bytes_equal(asig.values, snap['acc']):
+        what = 'values'
+    elif not (asig.dt == snap['dt_raw'] and type(asig.dt) is type(snap['dt_raw'])):
+        what = 'dt'
+    elif 'vel' in snap and getattr(asig, '_cached_disp_and_velo', False):
+        if not _bytes_equal(asig._velocity, snap['vel']):
+            what = 'cached velocity'
+        elif not _bytes_equal(asig._displacement, snap['disp']):
+            what = 'cached displacement'
+    if what is None:
+        ctx.ok(PURITY)
+    else:
+        ctx.violation(PURITY, _wit(key, snap['acc'], snap['dt'], changed=what),
+                      '%s changed the %s of the signal object it was given (n=%d)' % (FN[key], what, len(snap['acc'])))
 
 
 def _mk_post(key):
     def post(args, kwargs, result, pre):
-        acc, dt = pre
         if key == 'cavdp':
-            check_cav_dp(CTX, acc, dt, result)
+            check_cav_dp(CTX, pre['acc'], pre['dt'], result)
         else:
-            check_quadrature(CTX, key, acc, dt, result)
+            check_quadrature(CTX, key, pre['acc'], pre['dt'], result)
+        check_purity(CTX, key, pre)
     return post
 
 
@@ -226,97 +324,211 @@ def install(ctx):
 
 # ---------------------------------------------------------------------------------------------------- histories
 QUAD_KEYS = ['arias', 'cav', 'isv', 'abs_acc', 'abs_vel', 'cad', 'uke']
+ACC_KEYS = ['arias', 'cav', 'abs_acc']              # need only values and dt: also valid on eqsig.Signal
 SQUARE_LAW = ('arias', 'isv', 'uke')
 PAD_KEYS = ('arias', 'cav', 'abs_acc')
+METHODS = ('remove_average', 'remove_poly', 'rebase_displacement', 'set_zero_residual_velocity',
+           'set_zero_residual_displacement', 'generate_displacement_and_velocity_series')
 
 
-def run_history(ctx, eqsig, values, dt, ops, exact=False):
-    """Drive ONE AccSignal through a sequence of operations: ['call', key] (monitored measure), ['stats'] (deprecated
-    object entry point calling arias + cav), ['read', attr], ['add_constant', c], ['reset_values', array],
-    ['butter_pass', [lo, hi]]. Every monitored call is judged by its normal post-condition against the object's
-    values at that moment. Returns {key: last series returned (or None)}."""
+def _mk_dt(dt, kind):
+    return {'float': float, 'np.float64': np.float64, 'np.float32': np.float32, 'int': int}.get(kind, float)(dt)
+
+
+def _dt_kind(dt):
+    if isinstance(dt, np.float32):
+        return 'np.float32'
+    if isinstance(dt, np.float64):
+        return 'np.float64'
+    if isinstance(dt, (int, np.integer)) and not isinstance(dt, bool):
+        return 'int'
+    return 'float'
+
+
+def _apply(ctx, eqsig, asig, op, out, exact=False):
+    """One operation on one object: ['call', key(, 'kw')] (monitored measure), ['stats'] (deprecated object entry point
+    calling arias + cav), ['read', attr], ['add_constant', c], ['reset_values', array], ['butter_pass', [lo, hi]],
+    ['method', name, [args]]."""
+    kind = op[0]
+    try:
+        if kind == 'call':
+            key = op[1]
+            out[key] = None
+            f = getattr(eqsig.im, FN[key])
+            r = f(**{PARAM[key]: asig}) if len(op) > 2 and op[2] == 'kw' else f(asig)
+            out[key] = np.asarray(r, dtype=float)
+            return r
+        if kind == 'stats':
+            asig.generate_cumulative_stats()
+            ctx.observe('object.generate_cumulative_stats-call')
+        elif kind == 'read':
+            getattr(asig, op[1])
+        elif kind == 'add_constant':
+            asig.add_constant(op[1])
+        elif kind == 'reset_values':
+            asig.reset_values(op[1])
+        elif kind == 'butter_pass':
+            asig.butter_pass(tuple(op[1]))
+        elif kind == 'method' and op[1] in METHODS:
+            getattr(asig, op[1])(*op[2])
+        else:
+            raise ValueError(kind)
+        if kind != 'stats':
+            ctx.observe('history.' + (op[1] if kind == 'method' else kind))
+    except Exception as e:
+        if kind == 'call' and op[1] == 'cavdp' and not cavdp_in_quantifier(np.asarray(asig.values, dtype=float), float(asig.dt))[0]:
+            ctx.observe('cavdp.out-of-quantifier-call-raised')      # e.g. after a shorter reset: under 2 s
+        elif kind == 'call':
+            clause = 'cavdp.final==windows+-panel' if op[1] == 'cavdp' else op[1] + '.length'
+            ctx.exception(clause, _wit(op[1], asig.values, asig.dt, exact_g=bool(exact)), e)
+        elif kind == 'stats':
+            ctx.exception('arias.length', _wit('arias', asig.values, asig.dt), e)
+        else:
+            ctx.observe('history.%s-raised(not judged by C09)' % (op[1] if kind == 'method' else kind))
+    return None
+
+
+def run_history(ctx, eqsig, values, dt, ops, exact=False, sigcls='AccSignal'):
+    """Drive ONE signal object through a sequence of operations (see _apply). Every monitored call is judged by its
+    normal post-condition against the object's values at that moment. Returns {key: last series returned (or None)}."""
     out = {}
-    asig = eqsig.AccSignal(values, dt)
-    HIST.update(on=True, acc0=np.array(values), dt=float(dt), ops=[])
+    asig = getattr(eqsig, sigcls)(values, dt)
+    SCEN['cur'] = {'kind': 'history', 'acc0': np.array(values), 'dt': float(dt), 'dt_kind': _dt_kind(dt), 'ops': [],
+                   'sigcls': sigcls, 'exact_g': bool(exact)}
     HINT['exact_g'] = bool(exact)
     try:
         for op in ops:
-            HIST['ops'].append(op)
-            kind = op[0]
-            try:
-                if kind == 'call':
-                    out[op[1]] = None
-                    out[op[1]] = np.asarray(getattr(eqsig.im, FN[op[1]])(asig), dtype=float)
-                elif kind == 'stats':
-                    asig.generate_cumulative_stats()
-                    ctx.observe('object.generate_cumulative_stats-call')
-                elif kind == 'read':
-                    getattr(asig, op[1])
-                elif kind == 'add_constant':
-                    asig.add_constant(op[1])
-                elif kind == 'reset_values':
-                    asig.reset_values(op[1])
-                elif kind == 'butter_pass':
-                    asig.butter_pass(tuple(op[1]))
-                else:
-                    raise ValueError(kind)
-                if kind not in ('call', 'stats'):
-                    ctx.observe('history.' + kind)
-            except Exception as e:
-                if kind == 'call':
-                    clause = 'cavdp.final==windows+-panel' if op[1] == 'cavdp' else op[1] + '.length'
-                    ctx.exception(clause, _wit(op[1], asig.values, asig.dt, exact_g=bool(exact)), e)
-                elif kind == 'stats':
-                    ctx.exception('arias.length', _wit('arias', asig.values, asig.dt), e)
-                else:
-                    ctx.observe('history.%s-raised(not judged by C09)' % kind)
+            SCEN['cur']['ops'].append(op)
+            _apply(ctx, eqsig, asig, op, out, exact)
     finally:
-        HIST['on'] = False
+        SCEN['cur'] = None
         HINT['exact_g'] = False
     return out
 
 
-def measure(ctx, eqsig, values, dt, keys=QUAD_KEYS, via_object=False):
+def measure(ctx, eqsig, values, dt, keys=QUAD_KEYS, via_object=False, kw=False):
     """All measures in a fixed order on one fresh AccSignal; returns {key: series or None}."""
-    ops = ([['stats']] if via_object else []) + [['call', k] for k in keys]
+    ops = ([['stats']] if via_object else []) + [['call', k] + (['kw'] if kw else []) for k in keys]
     out = run_history(ctx, eqsig, values, dt, ops)
     return {k: out.get(k) for k in keys}
+
+
+def twin_case(ctx, eqsig, x, dt, ops):
+    """A and B built from the same caller array, C from A.values; A is driven through `ops` (mutators + measures);
+    afterwards the caller array, B, C and every measure of B and C must be bit-for-bit what they were before."""
+    x0 = np.array(x, copy=True)
+    SCEN['cur'] = {'kind': 'twin', 'acc0': x0, 'dt': float(dt), 'dt_kind': _dt_kind(dt), 'ops': []}
+    try:
+        a_sig = eqsig.AccSignal(x, dt)
+        b_sig = eqsig.AccSignal(x, dt)
+        c_sig = eqsig.AccSignal(a_sig.values, dt)
+        before = {}
+        _ = [_apply(ctx, eqsig, b_sig, ['call', k], before) for k in QUAD_KEYS]
+        before = {k: (None if v is None else v.copy()) for k, v in before.items()}
+        out = {}
+        for op in ops:
+            SCEN['cur']['ops'].append(op)
+            _apply(ctx, eqsig, a_sig, op, out)
+        bad = []
+        if not _bytes_equal(x, x0):
+            bad.append('caller array')
+        if not _bytes_equal(b_sig.values, x0):
+            bad.append('values of the twin built from the same array')
+        if not _bytes_equal(c_sig.values, x0):
+            bad.append('values of the twin built from A.values')
+        for name, obj in (('B', b_sig), ('C', c_sig)):
+            after = {}
+            _ = [_apply(ctx, eqsig, obj, ['call', k], after) for k in QUAD_KEYS]
+            for k in QUAD_KEYS:
+                if before[k] is None or after[k] is None or not _bytes_equal(before[k], after[k]):
+                    bad.append('%s of twin %s' % (FN[k], name))
+        ctx.check(not bad, TWIN, lambda: {'fn': 'twin', 'acc': x0, 'dt': float(dt), 'scenario': _scen(), 'changed': bad},
+                  'after mutating and measuring one AccSignal, changed: %s' % ', '.join(bad))
+    finally:
+        SCEN['cur'] = None
+
+
+def back_to_back(ctx, eqsig, x1, x2, dt, keys, kw=False):
+    """Each measure on two different records of the same shape, the first result still held: after the second call
+    the first result must be bit-for-bit what was returned and share no memory with the second."""
+    SCEN['cur'] = {'kind': 'back2back', 'acc0': np.array(x1), 'acc2': np.array(x2), 'dt': float(dt), 'dt_kind': _dt_kind(dt),
+                   'keys': list(keys), 'kw': bool(kw)}
+    try:
+        s1, s2 = eqsig.AccSignal(x1, dt), eqsig.AccSignal(x2, dt)
+        for key in keys:
+            op = ['call', key] + (['kw'] if kw else [])
+            r1 = _apply(ctx, eqsig, s1, op, {})
+            if r1 is None:
+                continue
+            c1 = np.array(r1, copy=True)
+            r2 = _apply(ctx, eqsig, s2, op, {})
+            if r2 is None:
+                continue
+            okk = _bytes_equal(r1, c1) and not np.shares_memory(np.asarray(r1), np.asarray(r2))
+            ctx.check(okk, STATE, lambda: {'fn': 'back2back', 'acc': np.array(x1), 'dt': float(dt), 'scenario': _scen(),
+                                           'measure': key},
+                      '%s: result for the first record changed (or shares memory) after the call on a second record of '
+                      'the same shape (n=%d)' % (FN[key], len(x1)))
+    finally:
+        SCEN['cur'] = None
 
 
 def _final(s):
     return float(s[-1]) if s is not None and s.ndim == 1 and s.shape[0] else None
 
 
-def relation(ctx, eqsig, x, dt, kind, alpha=None, k=None, base=None):
-    """Evaluate one trace relation between the execution on x and the execution on the transformed record."""
-    x = np.asarray(x)
-    wit = lambda **kw: dict({'fn': 'relation', 'kind': kind, 'acc': x, 'dt': float(dt), 'alpha': alpha, 'k': k}, **kw)
+def relation(ctx, eqsig, x, dt, kind, alpha=None, k=None, base=None, cont=None):
+    """Evaluate one trace relation between the execution on the record (given as container `cont`, real values x) and
+    the execution on the transformed record."""
+    x = np.asarray(x, dtype=float)
+    cont_arr = np.array(cont if cont is not None else x)
+    wit = lambda **kw: dict({'fn': 'relation', 'kind': kind, 'acc': x, 'acc_base': cont_arr, 'dt': float(dt),
+                             'alpha': alpha, 'k': k}, **kw)
     if base is None:
-        base = measure(ctx, eqsig, x, dt)
+        base = measure(ctx, eqsig, cont_arr, dt)
+    floor, eps_base = _prec(cont_arr, x.shape[0])
+    under = _underflow(cont_arr, x.shape[0], float(dt))
+
+    def vel_atol(rec, rounded_input=False):
+        """Conditioning of the velocity-based finals of `rec`: a float32 base is evaluated in float32 (velocity off by
+        up to eps*sum|panel|), and a transformed record alpha*x is itself rounded sample by sample, which moves the
+        velocity by up to eps*dt*sum|a| - far more than rtol of the result when the velocity is a small difference of
+        large accelerations (offset or alternating records). Same propagation as in the post-condition."""
+        rec = np.asarray(rec, dtype=float)
+        v, verr, sv = _velocity(rec, float(dt), eps_base)
+        if rounded_input:
+            verr += Q.EPS * float(dt) * float(np.sum(np.abs(rec)))
+        sv += len(v) * verr
+        return {'isv': 4 * verr * sv * float(dt), 'abs_vel': 2 * verr * len(v) * float(dt), 'cad': 2 * verr * len(v) * float(dt),
+                'uke': 4 * verr * sv + 16 * eps_base * sum(0.5 * t * t for t in v)}
     if kind == 'sign':
         other = measure(ctx, eqsig, -x, dt)
+        at = vel_atol(x) if floor > RTOL else {}
         for key in QUAD_KEYS:
             f0, f1 = _final(base[key]), _final(other[key])
             if f0 is None or f1 is None:
                 continue
-            ctx.check(abs(f1 - f0) <= RTOL * abs(f0), 'relation.sign', lambda: wit(measure=key, f_x=f0, f_minus_x=f1),
-                      '%s final %r for x but %r for -x' % (FN[key], f0, f1))
+            ctx.check(abs(f1 - f0) <= at.get(key, 0.0) + under + floor * abs(f0), 'relation.sign',
+                      lambda: wit(measure=key, f_x=f0, f_minus_x=f1),
+                      '%s final %r for x (%s) but %r for -x' % (FN[key], f0, cont_arr.dtype, f1))
     elif kind in ('scale.pow2', 'scale.random'):
         other = measure(ctx, eqsig, x * alpha, dt)
-        rtol = 1e-14 if kind == 'scale.pow2' else RTOL
+        exact_rel = kind == 'scale.pow2' and floor <= RTOL      # power-of-two scaling of a float64 record is exact
+        rtol = 1e-14 if exact_rel else floor
+        at = {} if exact_rel else vel_atol(x * alpha, rounded_input=(kind == 'scale.random'))
         for key in QUAD_KEYS:
             f0, f1 = _final(base[key]), _final(other[key])
             if f0 is None or f1 is None:
                 continue
             fac = alpha * alpha if key in SQUARE_LAW else abs(alpha)
-            ctx.check(abs(f1 - fac * f0) <= rtol * abs(fac * f0), 'relation.' + kind,
-                      lambda: wit(measure=key, f_x=f0, f_alpha_x=f1, factor=fac),
-                      '%s final %r for x, %r for %r*x, expected factor %r' % (FN[key], f0, f1, alpha, fac))
+            ctx.check(abs(f1 - fac * f0) <= at.get(key, 0.0) + under * max(1.0, fac) + rtol * abs(fac * f0), 'relation.' + kind,
+                      lambda: wit(measure=key, f_x=f0, f_alpha_x=f1, factor=fac, atol=at.get(key, 0.0)),
+                      '%s final %r for x (%s), %r for %r*x, expected factor %r' % (FN[key], f0, cont_arr.dtype, f1, alpha, fac))
     elif kind == 'zero-pad':
         if x.shape[0] == 0 or x[-1] != 0:
             ctx.observe('zero-pad-skipped(record does not end at 0)')
             return
-        xp = np.concatenate([x, np.zeros(k, dtype=x.dtype)])
+        xp = np.concatenate([cont_arr, np.zeros(k, dtype=cont_arr.dtype)])
         other = measure(ctx, eqsig, xp, dt, keys=PAD_KEYS)
         n = x.shape[0]
         for key in PAD_KEYS:
@@ -324,7 +536,7 @@ def relation(ctx, eqsig, x, dt, kind, alpha=None, k=None, base=None):
             if s0 is None or s1 is None or s0.shape != (n,) or s1.shape != (n + k,):
                 continue
             scale = abs(s0[-1])
-            okk = bool(np.all(np.abs(s1[:n] - s0) <= RTOL * scale)) and abs(s1[-1] - s0[-1]) <= RTOL * scale
+            okk = bool(np.all(np.abs(s1[:n] - s0) <= under + floor * scale)) and abs(s1[-1] - s0[-1]) <= under + floor * scale
             ctx.check(okk, 'relation.zero-pad', lambda: wit(measure=key, f_x=float(s0[-1]), f_padded=float(s1[-1])),
                       '%s changes when %d zeros are appended to a record ending at 0: final %r -> %r, max prefix change %r'
                       % (FN[key], k, float(s0[-1]), float(s1[-1]), float(np.max(np.abs(s1[:n] - s0)))))
@@ -334,25 +546,84 @@ def relation(ctx, eqsig, x, dt, kind, alpha=None, k=None, base=None):
 
 # ---------------------------------------------------------------------------------------------------- workload
 CAVDP_NICE_DT = [0.1, 0.05, 0.04, 0.025, 0.02, 0.01, 0.005, 0.0025, 0.002]
+CAVDP_EDGE_DT = [1.0, 0.5, 0.25, 0.2, 0.125, 0.001, 0.0005]
 CAVDP_RECIP_K = [49, 93, 99, 49, 93, 99, 98, 103, 107, 161, 186, 196, 198]
 GATE = Q.GATE_G
 _LEVELS_BELOW = [m / 4096.0 for m in range(0, 100)]      # background levels in g, all < 0.0245
+INT_RANGE = {'i8': (np.int8, 127), 'i16': (np.int16, 32767), 'i32': (np.int32, 2 ** 31 - 1), 'u8': (np.uint8, 255),
+             'u16': (np.uint16, 65535)}
 
 
-def cavdp_case(rng, cls=None):
+def to_container(rng, x, kind):
+    """(container handed to eqsig, the real values it holds as float64 array)."""
+    x = np.asarray(x, dtype=float)
+    m = float(np.max(np.abs(x))) if x.size else 0.0
+    if kind in INT_RANGE:
+        dtype, top = INT_RANGE[kind]
+        unit = x / m if m > 0 else x
+        if kind.startswith('u'):
+            xi = np.round((unit + 1.0) * 0.5 * 0.95 * top)
+        else:
+            xi = np.round(unit * 0.95 * top)
+        c = xi.astype(dtype)
+        return c, c.astype(float)
+    if kind == 'i64':
+        xi = x if (np.all(x == np.round(x)) and m < 1e6) else np.round(x / m * 1000.0) if m > 0 else np.round(x)
+        c = xi.astype(np.int64)
+        return c, c.astype(float)
+    if kind == 'f32':
+        c = x.astype(np.float32)
+        return c, c.astype(float)
+    if kind == 'list':
+        return x.tolist(), x
+    if kind == 'tuple':
+        return tuple(x.tolist()), x
+    if kind == 'list-int':
+        xi = x if (np.all(x == np.round(x)) and m < 1e6) else (np.round(x / m * 1000.0) if m > 0 else np.round(x))
+        return [int(v) for v in xi], np.asarray(xi, dtype=float)
+    if kind == 'mixed':
+        xi = np.where(np.arange(x.size) % 2 == 0, np.round(x), x)
+        return [int(v) if i % 2 == 0 else float(v) for i, v in enumerate(xi)], np.asarray(xi, dtype=float)
+    if kind == 'view':
+        buf = np.empty(2 * x.size)
+        buf[::2] = x
+        buf[1::2] = -7.0
+        return buf[::2], x
+    if kind == 'rview':
+        return x[::-1].copy()[::-1], x
+    if kind == 'readonly':
+        c = x.copy()
+        c.flags.writeable = False
+        return c, x
+    return x, x
+
+
+def cavdp_case(rng, cls=None, long=False):
     """Returns (acc, dt, class, exact_g)."""
-    if rng.random() < 0.4:
+    u = rng.random()
+    if long:
+        dt = 0.0005
+        pps = 2000
+    elif u < 0.37:
         k = CAVDP_RECIP_K[int(rng.integers(len(CAVDP_RECIP_K)))]
         dt, pps = 1.0 / k, k
+    elif u < 0.47:
+        dt = CAVDP_EDGE_DT[int(rng.integers(len(CAVDP_EDGE_DT)))]
+        pps = int(round(1.0 / dt))
     else:
         dt = CAVDP_NICE_DT[int(rng.integers(len(CAVDP_NICE_DT)))]
         pps = int(round(1.0 / dt))
-    nwin = int(rng.integers(2, 13))
+    nwin = int(rng.integers(2, 13)) if rng.random() < 0.88 else int(rng.integers(13, 41))
+    nwin = max(2, min(nwin, 20000 // pps))
+    if long:
+        nwin = 33
     extra = 0 if rng.random() < 0.3 else int(rng.integers(0, pps))
     n = nwin * pps + 1 + extra
     if cls is None:
         cls = ['envelope-noise', 'all-below', 'quake', 'exact-gate', 'boundary-spike', 'generic', 'near-gate-inexact'][
-            int(rng.choice(7, p=[0.22, 0.12, 0.1, 0.2, 0.22, 0.09, 0.05]))]
+            int(rng.choice(7, p=[0.22, 0.12, 0.1, 0.2, 0.2, 0.11, 0.05]))]
+    if pps < 4 and cls in ('exact-gate', 'boundary-spike', 'near-gate-inexact'):
+        cls = 'envelope-noise'
     t = np.arange(n) * dt
     exact = False
     if cls == 'envelope-noise':
@@ -369,7 +640,8 @@ def cavdp_case(rng, cls=None):
     elif cls == 'generic':
         x, _ = gen.record(rng, n, allow_const=True)
         m = np.max(np.abs(x))
-        x = x * (G * GATE * 10.0 ** rng.uniform(-0.5, 1.2) / m) if m > 0 else x
+        e = rng.uniform(-0.5, 1.2) if rng.random() < 0.7 else rng.uniform(-12, 12)
+        x = x * (G * GATE * 10.0 ** e / m) if m > 0 else x
     elif cls == 'near-gate-inexact':
         # record in m/s2 whose window maxima lie within a few ulp of 0.025*9.81: a/9.81 is inexact, so the knife-edge
         # rule applies (either side of the gate is accepted for these windows)
@@ -392,7 +664,10 @@ def cavdp_case(rng, cls=None):
             pk = peaks[int(rng.choice(6, p=[0.3, 0.25, 0.15, 0.1, 0.05, 0.15]))]
             if pk is None:
                 continue
-            for j in rng.integers(lo + 1, hi, size=int(rng.integers(1, 4))):
+            pos = rng.integers(lo + 1, hi, size=int(rng.integers(1, 4)))
+            if rng.random() < 0.15:
+                pos = [lo if rng.random() < 0.5 else hi]       # the tie sits on a window boundary / the first sample
+            for j in pos:
                 q[j] = pk * rng.choice([-1.0, 1.0])
         x = G * q
         bad = (x / G) != q
@@ -412,11 +687,19 @@ def cavdp_case(rng, cls=None):
         x = x * G
     else:
         raise ValueError(cls)
-    return np.asarray(x, dtype=float), dt, cls, exact
+    x = np.asarray(x, dtype=float)
+    if cls in ('envelope-noise', 'quake', 'generic', 'boundary-spike') and rng.random() < 0.4:
+        # the extreme of the record at the first sample, the last sample (outside every window when the record has a
+        # partial last second), the end of the last window, or on a boundary shared by two windows
+        j = [0, n - 1, nwin * pps, int(rng.integers(1, nwin + 1)) * pps][int(rng.integers(4))]
+        x = x.copy()
+        x[j] = G * rng.uniform(0.03, 0.2) * rng.choice([-1.0, 1.0]) * max(1.0, np.max(np.abs(x)) / (0.03 * G))
+        cls += '+edge-extreme'
+    return x, dt, cls, exact
 
 
-def run_cavdp(ctx, eqsig, x, dt, exact):
-    run_history(ctx, eqsig, x, dt, [['call', 'cavdp']], exact=exact)
+def run_cavdp(ctx, eqsig, x, dt, exact, kw=False, sigcls='AccSignal'):
+    run_history(ctx, eqsig, x, dt, [['call', 'cavdp'] + (['kw'] if kw else [])], exact=exact, sigcls=sigcls)
 
 
 HIST_CLASSES = ['sine', 'chirp', 'beat', 'noise', 'quake', 'alt', 'intnoise', 'zeropad', 'walk', 'hat']
@@ -426,7 +709,7 @@ READS = ['velocity', 'displacement', 'pgv', 'pgd', 'pga']
 def history_case(rng):
     """One record + a random same-object history: 3..8 monitored calls drawn with repeats from all measures (CAVdp
     when the record is inside its quantifier), interleaved with reads of derived series and public mutators.
-    Returns (acc, dt, ops, class, number of sign changes of the velocity)."""
+    Returns (acc, dt, ops, class, number of sign changes of the velocity, signal class)."""
     cls = HIST_CLASSES[int(rng.integers(len(HIST_CLASSES)))]
     in_dom = rng.random() < 0.5
     if in_dom:
@@ -449,34 +732,115 @@ def history_case(rng):
     if in_dom and m > 0:
         x = x * (G * GATE * rng.uniform(0.5, 6.0) / m)
         m = float(np.max(np.abs(x)))
-    pool = QUAD_KEYS + (['cavdp'] if in_dom else [])
+    sigcls = 'Signal' if rng.random() < 0.1 else 'AccSignal'
+    pool = (QUAD_KEYS if sigcls == 'AccSignal' else ACC_KEYS) + (['cavdp'] if in_dom else [])
+    amp = m if m > 0 else 1.0
+
+    def other(length):
+        y, _ = gen.record(rng, length, cls=HIST_CLASSES[int(rng.integers(len(HIST_CLASSES)))])
+        return np.asarray(y, dtype=float) * (amp / max(float(np.max(np.abs(y))), 1e-300))
     ops = []
     for _ in range(int(rng.integers(3, 9))):
         u = rng.random()
-        if u < 0.25:
+        if u < 0.22 and sigcls == 'AccSignal':
             ops.append(['read', READS[int(rng.integers(len(READS)))]])
-        elif u < 0.32:
-            ops.append(['add_constant', float(rng.uniform(-0.3, 0.3) * (m if m > 0 else 1.0))])
-        elif u < 0.38:
-            y, _ = gen.record(rng, n, cls=HIST_CLASSES[int(rng.integers(len(HIST_CLASSES)))])
-            ops.append(['reset_values', np.asarray(y, dtype=float) * ((m if m > 0 else 1.0) / max(float(np.max(np.abs(y))), 1e-300))])
-        elif u < 0.44 and dt <= 0.025 and n >= 100:
+        elif u < 0.28:
+            ops.append(['add_constant', float(rng.uniform(-0.3, 0.3) * amp)])
+        elif u < 0.36:
+            length = [n, n, max(2, n // 2), n + 17][int(rng.integers(4))]
+            ops.append(['reset_values', other(length)])
+        elif u < 0.42 and dt <= 0.025 and n >= 100:
             ops.append(['butter_pass', [float(rng.uniform(0.1, 1.0)), float(rng.uniform(5.0, min(15.0, 0.4 / dt)))]])
-        ops.append(['call', pool[int(rng.integers(len(pool)))]])
+        elif u < 0.52:
+            name = METHODS[int(rng.integers(len(METHODS)))]
+            args = {'remove_poly': [int(rng.integers(0, 3))], 'generate_displacement_and_velocity_series': [True]}.get(name, [])
+            ops.append(['method', name, args])
+        ops.append(['call', pool[int(rng.integers(len(pool)))]] + (['kw'] if rng.random() < 0.3 else []))
     v = np.concatenate([[0.0], np.cumsum(0.5 * dt * (x[1:] + x[:-1]))])
     sg = np.sign(v[v != 0])
-    return x, dt, ops, cls, int(np.sum(sg[1:] != sg[:-1]))
+    return x, dt, ops, cls, int(np.sum(sg[1:] != sg[:-1])), sigcls
 
 
-def quadrature_case(rng):
-    n = int(rng.choice([2, 3, 4, 5, 8, 13, 50, 200, 1000, 5000], p=[.05, .05, .05, .05, .1, .1, .2, .2, .15, .05]))
+QUAD_N = [1, 2, 3, 4, 5, 7, 8, 9, 13, 15, 16, 17, 31, 32, 33, 50, 63, 64, 65, 127, 128, 129, 200, 255, 256, 257, 511,
+          512, 513, 1000, 1023, 1024, 1025, 2047, 2048, 2049, 4095, 4096, 4097, 5000]
+QUAD_N_P = np.array([1.0 / (1.0 + k / 400.0) for k in QUAD_N])
+QUAD_N_P = QUAD_N_P / QUAD_N_P.sum()
+CONTAINERS = ['f64', 'list', 'tuple', 'list-int', 'mixed', 'i64', 'i32', 'i16', 'i8', 'u8', 'u16', 'f32', 'view', 'rview',
+              'readonly']
+CONTAINER_P = [0.40, 0.05, 0.03, 0.03, 0.03, 0.05, 0.04, 0.05, 0.05, 0.05, 0.05, 0.08, 0.04, 0.02, 0.03]
+
+
+def quadrature_case(rng, n=None):
+    """Returns (x, dt, class): dt may be a float, np.float64, np.float32 or int."""
+    if n is None:
+        n = int(rng.choice(QUAD_N, p=QUAD_N_P))
     x, cls = gen.record(rng, n)
-    dt = gen.dt(rng)
+    x = np.asarray(x, dtype=float).copy()
+    u = rng.random()
+    if u < 0.15:                                   # amplitude decades 1e-12 .. 1e12
+        m = np.max(np.abs(x))
+        if m > 0:
+            x *= 10.0 ** rng.uniform(-12, 12) / m
+            cls += '+scaled'
+    elif u < 0.22:                                 # large offset on a small signal
+        m = np.max(np.abs(x))
+        off = float(rng.choice([-1.0, 1.0]) * 10.0 ** rng.uniform(0, 6))
+        x = off + (x / m if m > 0 else x) * abs(off) * 10.0 ** rng.uniform(-9, -3)
+        cls += '+offset'
+    u = rng.random()
+    if n >= 4:
+        k = int(rng.integers(1, max(2, n // 4)))
+        if u < 0.06:
+            x[:k] = x[k]
+            cls += '+plateau-start'
+        elif u < 0.12:
+            x[-k:] = x[-k - 1]
+            cls += '+plateau-end'
+        elif u < 0.17:
+            x[0] = 1.5 * max(np.max(np.abs(x)), 1e-300) * rng.choice([-1.0, 1.0])
+            cls += '+extreme-first'
+        elif u < 0.22:
+            x[-1] = 1.5 * max(np.max(np.abs(x)), 1e-300) * rng.choice([-1.0, 1.0])
+            cls += '+extreme-last'
+        elif u < 0.27 and x[-2] != 0:
+            x[-1] = -x[-2] * rng.uniform(0.01, 1.0)
+            cls += '+ends-after-sign-change'
     if x[-1] != 0 and rng.random() < 0.3:
-        x = x.copy()
         x[-1] = 0.0
         cls += '+endzero'
+    u = rng.random()
+    if u < 0.2:
+        dt = float(10.0 ** rng.uniform(-9, 3))
+    else:
+        dt = gen.dt(rng)
+    u = rng.random()
+    if u < 0.05:
+        dt = np.float64(dt)
+    elif u < 0.10:
+        dt = np.float32(dt)
+    elif u < 0.13:
+        dt = int(rng.choice([1, 2, 5]))
     return x, dt, cls
+
+
+def quad_block(ctx, eqsig, rng, x, dt, cls, ckind, c):
+    cont, xr = to_container(rng, x, ckind)
+    ctx.case(core.digest(xr, dt, ckind, 'quad'), nontrivial=bool(np.any(xr != 0)),
+             cls='quad-%s/%s' % (cls.split('+')[0], ckind),
+             sample={'fn': 'all seven quadrature measures + relations', 'n': len(xr), 'dt': dt, 'class': cls,
+                     'container': ckind, 'head': xr[:8]})
+    for m in cls.split('+')[1:]:
+        ctx.observe('modifier.' + m)
+    base = measure(ctx, eqsig, cont, dt, via_object=(c % 10 == 0), kw=(c % 4 == 1))
+    relation(ctx, eqsig, xr, dt, 'sign', base=base, cont=cont)
+    a2 = float(rng.choice([-1.0, 1.0]) * 2.0 ** int(rng.integers(-6, 7)))
+    if a2 == 1.0:
+        a2 = -4.0
+    relation(ctx, eqsig, xr, dt, 'scale.pow2', alpha=a2, base=base, cont=cont)
+    ar = float(rng.choice([-1.0, 1.0]) * 10.0 ** rng.uniform(-3, 3))
+    relation(ctx, eqsig, xr, dt, 'scale.random', alpha=ar, base=base, cont=cont)
+    if xr[-1] == 0:
+        relation(ctx, eqsig, xr, dt, 'zero-pad', k=int(rng.choice([1, 2, 7, 50, 300])), base=base, cont=cont)
 
 
 def run_shard(ctx):
@@ -484,45 +848,61 @@ def run_shard(ctx):
     eqsig = core.import_eqsig()
     install(ctx)
     rng = ctx.rng
-    n_quad = (2400 if ctx.tier == 'quick' else 48000) // ctx.nshards
-    n_cavdp = (960 if ctx.tier == 'quick' else 16000) // ctx.nshards
+    quick = ctx.tier == 'quick'
+    n_quad = (2400 if quick else 48000) // ctx.nshards
+    n_cavdp = (960 if quick else 16000) // ctx.nshards
+    n_hist = (960 if quick else 16000) // ctx.nshards
+    n_twin = (240 if quick else 4800) // ctx.nshards
+    n_b2b = (240 if quick else 4800) // ctx.nshards
+    n_long = 1 if quick else 4
     # -- CAVdp part -------------------------------------------------------------------------------------------
-    for c in range(n_cavdp):
-        x, dt, cls, exact = cavdp_case(rng)
-        ctx.case(core.digest(x, dt, 'cavdp'), nontrivial=bool(np.any(x != 0)), cls='cavdp-' + cls,
-                 sample={'fn': 'calc_cav_dp', 'n': len(x), 'dt': dt, 'class': cls, 'exact_g': exact,
-                         'max_g': float(np.max(np.abs(x)) / G)})
-        run_cavdp(ctx, eqsig, x, dt, exact)
+    for c in range(n_cavdp + 1):
+        x, dt, cls, exact = cavdp_case(rng, long=(c == n_cavdp))
+        ckind = 'f64'
+        if not exact and rng.random() < 0.15:
+            ckind = ['f32', 'i16', 'list', 'view', 'readonly'][int(rng.integers(5))]
+        if ckind == 'i16':
+            cont = np.round(x / (G * GATE)).clip(-30000, 30000).astype(np.int16)     # integer m/s2: 0 below, >= 1 above the gate
+            xr = cont.astype(float)
+        else:
+            cont, xr = to_container(rng, x, ckind)
+        ctx.case(core.digest(xr, dt, ckind, 'cavdp'), nontrivial=bool(np.any(xr != 0)), cls='cavdp-%s/%s' % (cls, ckind),
+                 sample={'fn': 'calc_cav_dp', 'n': len(xr), 'dt': dt, 'class': cls, 'exact_g': exact, 'container': ckind,
+                         'max_g': float(np.max(np.abs(xr)) / G)})
+        run_cavdp(ctx, eqsig, cont, dt, exact, kw=(c % 3 == 1), sigcls='Signal' if c % 11 == 5 else 'AccSignal')
     # -- same-object histories --------------------------------------------------------------------------------
-    for c in range((960 if ctx.tier == 'quick' else 16000) // ctx.nshards):
-        x, dt, ops, cls, nsign = history_case(rng)
+    for c in range(n_hist):
+        x, dt, ops, cls, nsign, sigcls = history_case(rng)
+        ckind = 'f64' if rng.random() < 0.8 else ['list', 'view', 'readonly'][int(rng.integers(3))]
+        cont, _ = to_container(rng, x, ckind)
         ctx.case(core.digest(x, dt, repr(core.jsonable(ops)), 'hist'), nontrivial=nsign >= 3,
                  cls='history-' + cls + ('' if nsign >= 3 else '(velocity keeps its sign)'),
                  sample={'fn': 'same-object history', 'n': len(x), 'dt': dt, 'class': cls, 'velocity_sign_changes': nsign,
-                         'ops': [op if op[0] != 'reset_values' else ['reset_values', '<array>'] for op in ops]})
-        run_history(ctx, eqsig, x, dt, ops)
+                         'signal_class': sigcls,
+                         'ops': [op if op[0] != 'reset_values' else ['reset_values', '<array of %d>' % len(op[1])] for op in ops]})
+        run_history(ctx, eqsig, cont, dt, ops, sigcls=sigcls)
+    # -- twin objects and back-to-back calls ------------------------------------------------------------------
+    for c in range(n_twin):
+        x, dt, ops, cls, nsign, _ = history_case(rng)
+        ops = [op for op in ops if op[0] != 'call' or op[1] != 'cavdp'] + [['method', 'rebase_displacement', []], ['call', 'uke']]
+        ctx.case(core.digest(x, dt, repr(core.jsonable(ops)), 'twin'), nontrivial=bool(np.any(x != 0)), cls='twin-' + cls)
+        twin_case(ctx, eqsig, x, dt, ops)
+    for c in range(n_b2b):
+        x1, dt, _, cls, _, _ = history_case(rng)
+        x2, _ = gen.record(rng, len(x1))
+        m2 = float(np.max(np.abs(x2)))
+        x2 = np.asarray(x2, dtype=float) * ((np.max(np.abs(x1)) or 1.0) / (m2 if m2 > 0 else 1.0))
+        in_dom, pps = Q.samples_per_second(float(dt))
+        keys = QUAD_KEYS + (['cavdp'] if in_dom and len(x1) - 1 >= 2 * pps else [])
+        ctx.case(core.digest(x1, x2, dt, 'b2b'), nontrivial=bool(np.any(x1 != 0) and np.any(x1 != x2)), cls='back2back-' + cls)
+        back_to_back(ctx, eqsig, x1, x2, dt, keys, kw=(c % 3 == 0))
     # -- quadrature part + relations --------------------------------------------------------------------------
+    for c in range(n_long):
+        x, dt, cls = quadrature_case(rng, n=int(rng.choice([2 ** 16 + 1, 2 ** 16 + 1000, 100003])))
+        quad_block(ctx, eqsig, rng, x, dt, cls + '+long', ['f64', 'f32', 'i16'][int(rng.choice(3, p=[.6, .2, .2]))], c + 2)
     for c in range(n_quad):
         x, dt, cls = quadrature_case(rng)
-        cont, ckind = x, 'f64'
-        u = rng.random()
-        if u < 0.1:
-            cont, ckind = x.tolist(), 'list'
-        elif u < 0.25 and np.all(x == np.round(x)) and np.max(np.abs(x)) < 1e6:
-            cont, ckind = x.astype(np.int64), 'i64'
-        ctx.case(core.digest(x, dt, 'quad'), nontrivial=bool(np.any(x != 0)), cls='quad-' + cls.split('+')[0],
-                 sample={'fn': 'all seven quadrature measures + relations', 'n': len(x), 'dt': dt, 'class': cls,
-                         'container': ckind, 'head': x[:8]})
-        base = measure(ctx, eqsig, cont, dt, via_object=(c % 10 == 0))
-        relation(ctx, eqsig, x, dt, 'sign', base=base)
-        a2 = float(rng.choice([-1.0, 1.0]) * 2.0 ** int(rng.integers(-6, 7)))
-        if a2 == 1.0:
-            a2 = -4.0
-        relation(ctx, eqsig, x, dt, 'scale.pow2', alpha=a2, base=base)
-        ar = float(rng.choice([-1.0, 1.0]) * 10.0 ** rng.uniform(-3, 3))
-        relation(ctx, eqsig, x, dt, 'scale.random', alpha=ar, base=base)
-        if x[-1] == 0:
-            relation(ctx, eqsig, x, dt, 'zero-pad', k=int(rng.choice([1, 2, 7, 50, 300])), base=base)
+        quad_block(ctx, eqsig, rng, x, dt, cls, CONTAINERS[int(rng.choice(len(CONTAINERS), p=CONTAINER_P))], c)
         if ctx.out_of_time():
             ctx.observe('stopped-by-budget')
             break
@@ -536,15 +916,23 @@ def replay(w):
     eqsig = core.import_eqsig()
     ctx = core.Ctx(PROP_ID, 'quick', 0, 0, 1)
     install(ctx)
-    acc = np.asarray(w['acc'])
-    dt = float(w['dt'])
+    sc = w.get('scenario')
     if w.get('fn') == 'relation':
-        relation(ctx, eqsig, acc, dt, w['kind'], alpha=w.get('alpha'), k=w.get('k'))
-    elif w.get('history'):
-        # the case is the whole history of the object up to and including the judged call
-        h = w['history']
-        run_history(ctx, eqsig, np.asarray(h['acc0']), float(h['dt']), h['ops'], exact=w.get('exact_g', False))
+        relation(ctx, eqsig, np.asarray(w['acc']), float(w['dt']), w['kind'], alpha=w.get('alpha'), k=w.get('k'),
+                 cont=np.asarray(w['acc_base']) if w.get('acc_base') is not None else None)
+    elif sc:
+        # the case is the whole scenario up to and including the judged call
+        dt = _mk_dt(sc['dt'], sc.get('dt_kind', 'float'))
+        if sc['kind'] == 'history':
+            run_history(ctx, eqsig, np.asarray(sc['acc0']), dt, sc['ops'], exact=sc.get('exact_g', False),
+                        sigcls=sc.get('sigcls', 'AccSignal'))
+        elif sc['kind'] == 'twin':
+            twin_case(ctx, eqsig, np.asarray(sc['acc0']), dt, sc['ops'])
+        elif sc['kind'] == 'back2back':
+            back_to_back(ctx, eqsig, np.asarray(sc['acc0']), np.asarray(sc['acc2']), dt, sc['keys'], kw=sc.get('kw', False))
+        else:
+            raise ValueError(sc['kind'])
     else:
         key = [k for k, name in FN.items() if name == w['fn']][0]
-        run_history(ctx, eqsig, acc, dt, [['call', key]], exact=w.get('exact_g', False))
+        run_history(ctx, eqsig, np.asarray(w['acc']), float(w['dt']), [['call', key]], exact=w.get('exact_g', False))
     return ['%s: %s' % (v['clause'], v['msg']) for v in ctx.violations]
